@@ -17,7 +17,7 @@ CLAUSE -> THEOREMS -> WHAT REMAINS OUTSIDE
  2. "cell2coord returns the centre of the cell"
       cell2coord_eq, cell2coord_centre (midpoint of the footprint), cell2coord_inFootprint.
       outside: the IEEE evaluation of xll+csz*(col+0.5) (3 roundings; compared bit for bit with the Float instance and
-      within 4 ulp-scaled units with the exact instance).
+      within max(1e-9 cell sizes, 16 ulp of the largest extent coordinate) of the exact instance).
  3. "coord2cell returns c for every point inside the footprint of cell c"
       coord2cellK_inside, coord2cellK_eq_iff, coord2cellK_lims (kernel as written); coord2cell_inside, coord2cell_eq_iff,
       coord2cell_extent (cast-first form); coord2cellK_eq_coord2cell (the two forms agree everywhere);
